@@ -11,8 +11,20 @@ export VERIF_ROOT=$ROOT
 export GOFLAGS=-mod=mod GOPROXY=off GOTOOLCHAIN=auto
 unset GOSUMDB GOWORK
 export GOWORK=off
-WORK=$ROOT/.work
-mkdir -p "$WORK/bin" "$ROOT/evidence" "$ROOT/replays"
+# VERIF_REPO (default /repo) lets the same checks judge another checkout (a scratch worktree holding a
+# candidate change) without touching /repo: the library replacement is redirected through -modfile and all
+# output (evidence, replays, scratch) goes to VERIF_OUT.  Registered commands never set it.
+REPO=${VERIF_REPO:-/repo}
+MODFLAG=""
+if [ "$REPO" != /repo ]; then
+  export VERIF_OUT=${VERIF_OUT:-$ROOT/.work/alt-$(echo "$REPO" | md5sum | cut -c1-8)}
+  mkdir -p "$VERIF_OUT"
+  sed "s#=> /repo#=> $REPO#" "$ROOT/harness/go.mod" > "$VERIF_OUT/alt.mod"; cp "$ROOT/harness/go.sum" "$VERIF_OUT/alt.sum"
+  MODFLAG="-modfile=$VERIF_OUT/alt.mod"
+fi
+OUT=${VERIF_OUT:-$ROOT}
+WORK=$OUT/.work
+mkdir -p "$WORK/bin" "$OUT/evidence" "$OUT/replays"
 GO=go
 if ! (cd "$ROOT/harness" && $GO version >/dev/null 2>&1); then
   # fallback toolchain (see DESIGN §2.1)
@@ -21,7 +33,7 @@ fi
 
 build() { # $1 = output name, rest = extra build flags
   local out=$1; shift
-  (cd "$ROOT/harness" && $GO build "$@" -o "$WORK/bin/$out" ./cmd/vcheck) 2>"$WORK/build-$out.log"
+  (cd "$ROOT/harness" && $GO build $MODFLAG "$@" -o "$WORK/bin/$out" ./cmd/vcheck) 2>"$WORK/build-$out.log"
   local rc=$?
   if [ $rc -ne 0 ]; then
     echo "INCONCLUSIVE harness does not build against /repo's working tree ($out):"; head -30 "$WORK/build-$out.log"
